@@ -3,6 +3,7 @@ package optionreflect
 import (
 	"math"
 	"math/bits"
+	"sort"
 	"strconv"
 	"unicode/utf8"
 
@@ -77,9 +78,23 @@ func walkOptionMap(fieldDesc protoreflect.FieldDescriptor, mp protoreflect.Map) 
 		panic("map value is message, not supported")
 	}
 
+	// Map iteration order is random, the printed output must not be.
+	type mapEntry struct {
+		key protoreflect.MapKey
+		val protoreflect.Value
+	}
+	entries := make([]mapEntry, 0, mp.Len())
 	mp.Range(func(key protoreflect.MapKey, val protoreflect.Value) bool {
-		mapVal := walkOptionScalar(fieldDesc.MapValue(), val)
-		keyVal := walkOptionScalar(fieldDesc.MapKey(), key.Value())
+		entries = append(entries, mapEntry{key: key, val: val})
+		return true
+	})
+	sort.Slice(entries, func(i, j int) bool {
+		return mapKeyLess(entries[i].key, entries[j].key)
+	})
+
+	for _, entry := range entries {
+		mapVal := walkOptionScalar(fieldDesc.MapValue(), entry.val)
+		keyVal := walkOptionScalar(fieldDesc.MapKey(), entry.key.Value())
 		mapVal.Key = "value"
 		keyVal.Key = "key"
 
@@ -91,10 +106,22 @@ func walkOptionMap(fieldDesc protoreflect.FieldDescriptor, mp protoreflect.Map) 
 			},
 		}
 		out.Children = append(out.Children, kvChild)
-		return true
-	})
+	}
 
 	return out
+}
+
+func mapKeyLess(a, b protoreflect.MapKey) bool {
+	switch a.Interface().(type) {
+	case bool:
+		return !a.Bool() && b.Bool()
+	case int32, int64:
+		return a.Int() < b.Int()
+	case uint32, uint64:
+		return a.Uint() < b.Uint()
+	default:
+		return a.String() < b.String()
+	}
 }
 
 func walkOptionMessage(fieldDesc protoreflect.FieldDescriptor, msgVal protoreflect.Message) OptionField {
